@@ -12,7 +12,7 @@ import (
 func init() {
 	register(&Check{
 		ID: "C06", Level: "exploration", QuickSecs: 150, ThoroughSecs: 1200,
-		Rule:        "(F1) all block-free bodies over {'a','b',\"ab\",\"\",[ab],[^a],.} x {?,*,+,&,!} x seq/choice up to N nodes (quick 4, thorough 5); (F2) every single label+action decoration for N<=3; (F3) forced revisits: a rule R (every body up to 4 nodes, every single label placement, with a rule-level action, an always-failing action error, or a label-dependent predicate; for bodies up to 3 (4) nodes also INLINE: the block parenthesised behind the variable-width prefix \"a\"* - thorough also [ab]? - so that the rule starts at two offsets but the block at one) reached at one offset along two paths by the templates {R 'b' / R, &R R, R 'b' / . r:R {act}, R / . R, (R 'b' / R)*}. (F5) every ordered pair of 9 terminals with the same text but different flags or kinds ('a', 'a'i, 'A'i, [a], [a]i, [^a], \"ab\", \"ab\"i, .) tried at the same offsets, inputs over {a,A,b,x}; (F4) left-recursive grammars generated with -support-left-recursion (direct, two-level tower, indirect pairs with both name orders entered through either rule, a non-recursive rule with an action called inside a discarded growth attempt and again afterwards; each also with every action returning an error). Inputs over {a,b} up to L=3 (4). All 8 combinations of Memoize, Debug, Statistics: success/failure, value and code-block errors must equal the default-option run (which itself is compared with the reference); with Memoize every (block, start offset) is invoked at most once, a census hook at the entry of parseExpr shows that no (expression node, offset) pair is evaluated twice (labeled expressions excepted) and Stats.ExprCnt <= (#expressions of the emitted grammar) x (len+1). Non-trivial = under Memoize at least one memo hit changed the number of block invocations or evaluated expressions. Plus the cross family (cross.go: every body without #{} / throw / recover, with and without -optimize-basic-latin and left recursion, predicates true / false, every action returning an error) and the option-value reuse oracle (every 4th (input, option set): the NEXT input parsed with the SAME option values must equal that input alone).",
+		Rule:        "(F1) all block-free bodies over {'a','b',\"ab\",\"\",[ab],[^a],.} x {?,*,+,&,!} x seq/choice up to N nodes (quick 4, thorough 5); (F2) every single label+action decoration for N<=3; (F3) forced revisits: a rule R (every body up to 4 nodes, every single label placement, with a rule-level action, an always-failing action error, or a label-dependent predicate; for bodies up to 3 (4) nodes also INLINE: the block parenthesised behind the variable-width prefix \"a\"* - thorough also [ab]? - so that the rule starts at two offsets but the block at one) reached at one offset along two paths by the templates {R 'b' / R, &R R, R 'b' / . r:R {act}, R / . R, (R 'b' / R)*}. (F6) twins: the same labelled group (6 shapes) written twice in one grammar - under two actions of one choice, in two rules, under a lookahead and for real, inside a labelled group and alone - reached at one offset along two paths, inputs over {a,b,c}; (F5) every ordered pair of 9 terminals with the same text but different flags or kinds ('a', 'a'i, 'A'i, [a], [a]i, [^a], \"ab\", \"ab\"i, .) tried at the same offsets, inputs over {a,A,b,x}; (F4) left-recursive grammars generated with -support-left-recursion (direct, two-level tower, indirect pairs with both name orders entered through either rule, a non-recursive rule with an action called inside a discarded growth attempt and again afterwards; each also with every action returning an error). Inputs over {a,b} up to L=3 (4). All 8 combinations of Memoize, Debug, Statistics: success/failure, value and code-block errors must equal the default-option run (which itself is compared with the reference); with Memoize every (block, start offset) is invoked at most once, a census hook at the entry of parseExpr shows that no (expression node, offset) pair is evaluated twice (labeled expressions excepted) and Stats.ExprCnt <= (#expressions of the emitted grammar) x (len+1). Non-trivial = under Memoize at least one memo hit changed the number of block invocations or evaluated expressions. Plus the cross family (cross.go: every body without #{} / throw / recover, with and without -optimize-basic-latin and left recursion, predicates true / false, every action returning an error) and the option-value reuse oracle (every 4th (input, option set): the NEXT input parsed with the SAME option values must equal that input alone).",
 		Assumptions: []string{"E1 loader", "blocks are pure functions of text, pos and their labels by construction"},
 		Run:         runC06,
 	})
@@ -309,6 +309,50 @@ func runC06(c *ShardCtx) {
 					return
 				}
 				run(wrap(peg.Seq(peg.Choice(peg.Seq(t1(), peg.Lit("x")), t2()), peg.Opt(peg.Choice(peg.Seq(t2(), peg.Lit("x")), t1())))), nil)
+			}
+		}
+		inputs = saved
+	}
+	// F6: twins - the SAME labelled group written twice in one grammar (under two actions of one
+	// choice, in two rules, under a predicate and for real), reached at one offset along two paths.
+	// Whatever the builder does with equal sub-expressions, the labels of each occurrence are bound
+	// in the scope it is evaluated in
+	{
+		lit := peg.Lit
+		inners := []func() *peg.Expr{
+			func() *peg.Expr { return peg.Seq(peg.Label("a", lit("a")), peg.Label("b", peg.Cls(false, false, "a", "b"))) },
+			func() *peg.Expr { return peg.Seq(peg.Label("a", peg.Opt(lit("a"))), lit("b")) },
+			func() *peg.Expr { return peg.Choice(peg.Label("a", lit("a")), peg.Label("b", lit("b"))) },
+			func() *peg.Expr { return peg.Opt(peg.Label("a", lit("a"))) },
+			func() *peg.Expr { return peg.Star(peg.Label("a", peg.Cls(false, false, "a", "b"))) },
+			func() *peg.Expr { return peg.Label("a", peg.Seq(lit("a"), peg.Opt(lit("b")))) },
+		}
+		saved := inputs
+		inputs = peg.Inputs([]string{"a", "b", "c"}, 3)
+		for _, in := range inners {
+			for shape := 0; shape < 4; shape++ {
+				if c.Expired("F6") {
+					return
+				}
+				var g *peg.Grammar
+				switch shape {
+				case 0: // two alternatives of one choice, each with its own action
+					g = &peg.Grammar{Rules: []*peg.Rule{{Name: "S", Expr: peg.Action(0, peg.Label("v", peg.Choice(peg.Action(0, peg.Seq(in(), lit("c"))), peg.Action(0, peg.Seq(in(), peg.Opt(lit("b")))))))}}}
+				case 1: // two rules with the same body
+					g = &peg.Grammar{Rules: []*peg.Rule{{Name: "S", Expr: peg.Action(0, peg.Label("v", peg.Choice(peg.Seq(peg.Ref("A"), lit("c")), peg.Ref("B"))))}, {Name: "A", Expr: peg.Action(0, in())}, {Name: "B", Expr: peg.Action(0, in())}}}
+				case 2: // under a lookahead, then for real
+					g = &peg.Grammar{Rules: []*peg.Rule{{Name: "S", Expr: peg.Action(0, peg.Seq(peg.And(peg.Action(0, peg.Seq(in(), lit("c")))), peg.Label("v", peg.Action(0, peg.Seq(in(), peg.Any())))))}}}
+				case 3: // the group once inside a labelled group of an outer action, once alone
+					g = &peg.Grammar{Rules: []*peg.Rule{{Name: "S", Expr: peg.Action(0, peg.Choice(peg.Seq(peg.Label("x", peg.Action(0, in())), lit("c")), peg.Seq(in(), peg.AndCode(0))))}}}
+				}
+				peg.Renumber(g, 1)
+				peg.AssignArgs(g)
+				run(g, nil)
+				es := map[int]*rtapi.Block{}
+				for _, blk := range g.Blocks() {
+					es[blk.ID] = &rtapi.Block{Pred: rtapi.PredTrue}
+				}
+				run(g, es)
 			}
 		}
 		inputs = saved
